@@ -225,12 +225,23 @@ func parent(a []string) int {
 					raceSeen = raceSeen || rp.Relevant
 				}
 			}
-			if !raceSeen {
+			// a Go panic or fatal error whose first goroutine trace runs through the library is the library's crash, whichever
+			// workload was running (not every workload keeps a journal entry)
+			libCrash := e.CrashIsViolation && panicInLibrary(logTail)
+			if !raceSeen && !libCrash {
 				fmt.Printf("HARNESS-ERROR property=%s child died outside a journalled case (%v)\n%s\n", id, runErr, logTail)
 				return 3
 			}
 			res = fw.Result{Property: id, Tier: tier, Seed: seed}
-			res.Notes = append(res.Notes, "the child process died before it finished ("+crashKind(logTail)+"); the race reports it had written are judged")
+			if libCrash {
+				cb, _ := json.Marshal(map[string]string{"what": "no journal entry: the crash happened in a workload that is not recorded case by case"})
+				res.Violations = append(res.Violations, fw.Violation{Signature: "process-death " + crashKind(logTail),
+					Detail: "the child process died with a panic / fatal error whose trace runs through the library\n" + logTail, Case: cb})
+				res.ViolationsN++
+			}
+			if raceSeen {
+				res.Notes = append(res.Notes, "the child process died before it finished ("+crashKind(logTail)+"); the race reports it had written are judged")
+			}
 		}
 	}
 
@@ -362,6 +373,26 @@ func parent(a []string) int {
 		return 3
 	}
 	return exit
+}
+
+// panicInLibrary: the log starts (after trimming, see tail) with a panic or fatal error and the trace of the first
+// goroutine that follows has a frame in the library under test.
+func panicInLibrary(log string) bool {
+	if !strings.Contains(log, "panic:") && !strings.Contains(log, "fatal error:") {
+		return false
+	}
+	if strings.Contains(log, "SIGQUIT") {
+		return false // a watchdog dump shows every goroutine; it does not say who is at fault
+	}
+	i := strings.Index(log, "goroutine ")
+	if i < 0 {
+		return false
+	}
+	first := log[i:]
+	if j := strings.Index(first, "\n\n"); j > 0 {
+		first = first[:j]
+	}
+	return strings.Contains(first, "github.com/varlink/go/varlink")
 }
 
 func crashKind(log string) string {
